@@ -172,6 +172,7 @@ type World struct {
 	SimSeconds float64
 	TxCount    int64
 	genesisOps []func(app *band.BandApp, ctx sdk.Context) error
+	initReq    *abci.RequestInitChain
 }
 
 type Faults struct {
@@ -352,10 +353,11 @@ func (w *World) initChain() error {
 		for _, m := range w.Cfg.GenesisMods {
 			_ = m
 		}
-		res, err := r.App.InitChain(&abci.RequestInitChain{
+		w.initReq = &abci.RequestInitChain{
 			Time: w.Cfg.GenesisTime, ChainId: w.Cfg.ChainID, ConsensusParams: defaultConsensusParams,
 			Validators: []abci.ValidatorUpdate{}, AppStateBytes: gsBytes, InitialHeight: w.Cfg.InitialHeight,
-		})
+		}
+		res, err := r.App.InitChain(w.initReq)
 		if err != nil {
 			return fmt.Errorf("InitChain replica %d: %w", r.ID, err)
 		}
@@ -847,7 +849,15 @@ func (w *World) restart(r *Replica) {
 	r.Alive = true
 	r.Height = r.App.LastBlockHeight()
 	if r.Height == 0 {
+		// nothing was ever committed: like CometBFT's handshake, replay InitChain from the genesis document
 		r.Height = w.Cfg.InitialHeight - 1
+		if _, err := r.App.InitChain(w.initReq); err != nil {
+			w.Halt = &Halt{Replica: r.ID, Height: r.Height, Phase: "InitChain(restart)", Err: err.Error()}
+			return
+		}
+		for _, op := range w.genesisOps {
+			_ = op(r.App, w.interCtx(r.App))
+		}
 	}
 	w.Log.Add("restart replica %d at committed height %d", r.ID, r.Height)
 	reapply := func(h int64) {
